@@ -32,6 +32,7 @@ func init() {
 }
 
 func rulesC07(w *World, r *Report) {
+	w.ruleUnboxedNotNarrowed(r, "C07.R7 unboxed wire integers are not narrowed", 3)
 	w.ruleNumEncoder(r, "C07.R1 shortest-form partition", "C07.R2 tag arithmetic and octet windows", "int", specInt)
 	w.ruleNumEncoder(r, "C07.R1 shortest-form partition", "C07.R2 tag arithmetic and octet windows", "long", specLong)
 	w.ruleDecoderForms(r, "C07.R3 reader accepts every spec form", "int")
